@@ -36,10 +36,9 @@ Judge(r) ==
         unifyType   |-> ~obsOk \/ ~u.ok \/ o.unify.t = u.t,
         unifySubst  |-> ~answered \/ refused \/ obsOk # u.ok \/ om = u.m,
         \* property, on the OBSERVED substitution: sound, no self-containing binding
-        sound       |-> ~obsOk \/ HasBotTop(r.x) \/ HasBotTop(r.y)
+        sound       |-> ~obsOk \/ HasBotTop(r.x) \/ HasBotTop(r.y) \/ CyclicSubst(om)
                           \/ TypeEq(ApplySubst(r.x, om), ApplySubst(r.y, om)),
-        noSelf      |-> ~obsOk
-                          \/ \A n \in DOMAIN om : ~Occurs(ApplySubst(om[n], om), n)
+        noSelf      |-> ~obsOk \/ ~CyclicSubst(om)
       ]
   IN {n \in DOMAIN conj : ~conj[n]}
 
